@@ -441,7 +441,13 @@ func (e *Exec) frameWriteRef(f *Frame, st *State, reach Term, r Term, what strin
 }
 
 func (e *Exec) frameWriteRefIf(f *Frame, st *State, reach Term, r Term, what string) {
-	if e.rootCtr == nil || len(e.rootCtr.FrameProps) == 0 || e.discovery > 0 {
+	if e.rootCtr == nil || e.discovery > 0 {
+		return
+	}
+	if w := e.rootCtr.Writes; w != nil {
+		e.oblige("frame", "writes", w.Props, reach, e.writeAllowed(r), "write outside the declared footprint (writes "+w.Text+"): "+what, "writes "+w.Text)
+	}
+	if len(e.rootCtr.FrameProps) == 0 {
 		return
 	}
 	c := e.comp(st, "CACHED", "(Array Int Bool)")
@@ -454,4 +460,82 @@ func (e *Exec) frameWrite(f *Frame, st *State, reach Term, a *Addr, what string)
 	} else {
 		e.frameWriteRefIf(f, st, reach, a.Ref, what)
 	}
+}
+
+// writeAllowed: r was allocated during this activation, or is one of the declared write targets.
+func (e *Exec) writeAllowed(r Term) Term {
+	alts := []Term{app(">", r, e.compInit[allocComp])}
+	for _, w := range e.rootWrites {
+		alts = append(alts, w.contains(r))
+	}
+	return Or(alts...)
+}
+
+// writeTarget: a single reference or the set of references stored in a container (at evaluation time).
+type writeTarget struct {
+	single Term
+	member func(r Term) Term
+	text   string
+}
+
+func (w writeTarget) contains(r Term) Term {
+	if w.member != nil {
+		return w.member(r)
+	}
+	return Eq(r, w.single)
+}
+
+// evalWriteTargets evaluates a writes clause in env (state env.cur).
+func (e *Exec) evalWriteTargets(env *Env, wc *WritesClause) ([]writeTarget, error) {
+	var out []writeTarget
+	for i, ex := range wc.Exprs {
+		v, err := e.eval(env, ex)
+		if err != nil {
+			return nil, fmt.Errorf("writes %s: %v", wc.Texts[i], err)
+		}
+		if !wc.Elems[i] {
+			out = append(out, writeTarget{single: e.writeTargetRef(v), text: wc.Texts[i]})
+			continue
+		}
+		st := env.cur
+		switch ct := unalias(v.T).Underlying().(type) {
+		case *types.Map:
+			ks := e.reg.sortOf(ct.Key())
+			has := func(k Term) Term { return e.mapHas(st, ct, v.Term, k) }
+			val := func(k Term) Term {
+				_, _, vn, vs := e.mapNames(ct)
+				return Select(Select(e.comp(st, vn, vs), v.Term), k)
+			}
+			elemRef := func(x Term) Term {
+				if _, ok := unalias(ct.Elem()).Underlying().(*types.Slice); ok {
+					return app("s_base", x)
+				}
+				if e.reg.sortOf(ct.Elem()) == "Any" {
+					return app("ref", x)
+				}
+				return x
+			}
+			out = append(out, writeTarget{text: wc.Texts[i], member: func(r Term) Term {
+				e.nfresh++
+				k := fmt.Sprintf("wk%d", e.nfresh)
+				return fmt.Sprintf("(exists ((%s %s)) (and %s (= %s %s)))", k, ks, has(k), elemRef(val(k)), r)
+			}})
+		case *types.Slice:
+			n, so := e.arrName(ct.Elem())
+			row := Select(e.comp(st, n, so), app("s_base", v.Term))
+			isAny := e.reg.sortOf(ct.Elem()) == "Any"
+			out = append(out, writeTarget{text: wc.Texts[i], member: func(r Term) Term {
+				e.nfresh++
+				k := fmt.Sprintf("wi%d", e.nfresh)
+				el := Select(row, app("+", app("s_off", v.Term), k))
+				if isAny {
+					el = app("ref", el)
+				}
+				return fmt.Sprintf("(exists ((%s Int)) (and (<= 0 %s) (< %s %s) (= %s %s)))", k, k, k, app("s_len", v.Term), el, r)
+			}})
+		default:
+			return nil, fmt.Errorf("writes %s: elems() needs a map or slice", wc.Texts[i])
+		}
+	}
+	return out, nil
 }
